@@ -51,6 +51,23 @@ func checkWriteCase(c writeCase) (string, bool) {
 		if got, w := h.Sum16(), fitmodel.CRC(data[:cut]); got != w {
 			return fmt.Sprintf("after writes up to %d: Sum16=%#04x, reference %#04x", cut, got, w), false
 		}
+		// reading the sum (through any of the three readers) is not a write:
+		// the streaming state is just the register, and the next Write
+		// continues from it
+		if cut%3 == 1 {
+			w := fitmodel.CRC(data[:cut])
+			s1 := h.Sum([]byte{0xAA})
+			s2 := h.Sum(nil)
+			if len(s1) != 3 || len(s2) != 2 || s1[0] != 0xAA || s1[1] != s2[0] || s1[2] != s2[1] {
+				return fmt.Sprintf("Sum(prefix)=%x and Sum(nil)=%x after %d bytes do not carry the same two bytes", s1, s2, cut), false
+			}
+			if got := h.Sum16(); got != w {
+				return fmt.Sprintf("Sum16 after Sum = %#04x, before it %#04x (Sum changed the state)", got, w), false
+			}
+			if h.Size() != 2 || h.BlockSize() < 1 {
+				return fmt.Sprintf("Size()=%d BlockSize()=%d", h.Size(), h.BlockSize()), false
+			}
+		}
 		prev = cut
 	}
 	if got := h.Sum16(); got != want {
